@@ -4,6 +4,7 @@ import (
 	"bytes"
 	"crypto/ed25519"
 	"fmt"
+	"strings"
 	"sync/atomic"
 	"testing"
 
@@ -50,10 +51,14 @@ type tcase struct {
 
 func TestC01(t *testing.T) {
 	run := evid.Start("C01", "exploration")
-	acc := enum.NewAcc(run, "deviation-bounded mutation (0,1,2 field deviations; every bit flip / byte substitution / truncation at field and wire level) of honest signed messages over 3 keys x 3 bodies x 5 contexts x 3 hash types; a case is non-trivial if it is not one of the unmodified honest messages verified under its own context; distinct by (group, description)")
+	acc := enum.NewAcc(run, "deviation-bounded mutation (0,1,2 field deviations; every bit flip / byte substitution / truncation at field and wire level) of honest signed messages over 3 keys x 3 bodies x 10 contexts (5 of them 110..282 bytes long) x 3 hash types; a case is non-trivial if it is not one of the unmodified honest messages verified under its own context; distinct by (group, description)")
 	keys := enum.Keys(3)
 	bodies := [][]byte{{0x42}, bytes.Repeat([]byte{0xa5}, 32), bytes.Repeat([]byte("bifrost!"), 40)}
 	ctxs := []string{"", "ctx-a", "ctx-a ", "ctx-b", "x - SIGN - 1"}
+	// long contexts (lengths around 128 / 256 bytes; two that differ only after
+	// a common prefix of 280 bytes): see C02
+	longP := strings.Repeat("p", 280)
+	ctxs = append(ctxs, strings.Repeat("c", 110), strings.Repeat("c", 120), strings.Repeat("d", 250), longP+"-a", longP+"-b")
 	hts := []hash.HashType{hash.HashType_HashType_SHA256, hash.HashType_HashType_SHA1, hash.HashType_HashType_BLAKE3}
 
 	check := func(c tcase) {
